@@ -241,5 +241,12 @@ func (s *fileSeedSegment) clone(dst, src *os.File, srcOffset, srcLength, dstOffs
 	}
 	copied += c2
 	// close the aligned blocks
-	return copied, alignLength, CloneRange(dst, src, srcAlignStart, alignLength, dstAlignStart)
+	if err := CloneRange(dst, src, srcAlignStart, alignLength, dstAlignStart); err != nil {
+		// The blocks can't be cloned, for example because the seed was truncated since it
+		// was validated. Copy what is there like on a filesystem without reflinks, the caller
+		// checks what was written and deals with a seed that has changed.
+		c3, _, err := s.copy(dst, src, srcAlignStart, alignLength, dstAlignStart)
+		return copied + c3, 0, err
+	}
+	return copied, alignLength, nil
 }
